@@ -26,15 +26,15 @@ import (
 //	drift model and code disagree on something no property constrains
 //	skip  the case could not be run (infrastructure)
 type Result struct {
-	ID     string         `json:"id"`
-	Status string         `json:"status"`
-	Kind   string         `json:"kind,omitempty"` // panic | hang | wrong-output | wrong-error | missing-error | nondeterminism | race | state-changed ...
-	Site   string         `json:"site,omitempty"` // innermost textwire function (panic/hang)
-	Msg    string         `json:"msg,omitempty"`
-	Tags   []string       `json:"tags,omitempty"`
-	Got    map[string]any `json:"got,omitempty"`
-	Case   json.RawMessage `json:"case,omitempty"` // echoed for non-ok results
-	Stats  map[string]int `json:"stats,omitempty"` // per-case counters (summed by the driver)
+	ID     string          `json:"id"`
+	Status string          `json:"status"`
+	Kind   string          `json:"kind,omitempty"` // panic | hang | wrong-output | wrong-error | missing-error | nondeterminism | race | state-changed ...
+	Site   string          `json:"site,omitempty"` // innermost textwire function (panic/hang)
+	Msg    string          `json:"msg,omitempty"`
+	Tags   []string        `json:"tags,omitempty"`
+	Got    map[string]any  `json:"got,omitempty"`
+	Case   json.RawMessage `json:"case,omitempty"`  // echoed for non-ok results
+	Stats  map[string]int  `json:"stats,omitempty"` // per-case counters (summed by the driver)
 }
 
 // A family turns one generated case into a Result by driving the real code.
